@@ -1688,3 +1688,40 @@ def selftest(run, live: LexSpec, mutants: Sequence[Mutant], bounds: Iterable[int
 def attach_results(run, cap: int = 600) -> None:
     """Per-obligation results (name, status, solver seconds) into the evidence file."""
     run.extra["obligation_results"] = [[o["name"][:160], o["status"], o["solver_s"]] for o in run.obls[:cap]]
+
+
+def ob_caseflip_rule(sess: Session, name: str, family: str, N: int, rule: str, timeout: Optional[float] = None) -> Obligation:
+    """Lemma: token rule `rule`, tried on its own, has the same extent on two texts that differ only by ASCII letter case.
+    All lemmas together imply the lex1-level statement (the `literals` are not letters); a lemma that fails is only
+    informational - a case-sensitive rule may be shadowed - and the lex1-level obligation decides."""
+
+    def build(txt: SymText, excl: List[Region]) -> Query:
+        eng = txt.eng
+        other = eng.text("d")
+        ix = eng.alphabet.index
+        lower = eng.alphabet.idx("abcdefghijklmnopqrstuvwxyz")
+        upper = eng.alphabet.idx("ABCDEFGHIJKLMNOPQRSTUVWXYZ")
+        delta = ix["a"] - ix["A"]
+        pre = [txt.L == other.L, txt.has_prev == other.has_prev]
+        pre.append(z3.Or(txt.prev == other.prev, z3.And(txt._ranges(txt.prev, lower), other.prev == txt.prev - delta),
+                         z3.And(txt._ranges(txt.prev, upper), other.prev == txt.prev + delta)))
+        for i in range(txt.N):
+            pre.append(z3.Or(txt.c[i] == other.c[i],
+                             z3.And(txt.incls(i, lower), other.c[i] == txt.c[i] - delta),
+                             z3.And(txt.incls(i, upper), other.c[i] == txt.c[i] + delta)))
+        neg = [txt.rule_end(rule) != other.rule_end(rule)]
+        return Query(name, pre, neg, {"t": txt, "u": other}, {}, minimise=txt.L, family=family)
+
+    def replay(w: dict) -> dict:
+        a, b = w["texts"]["t"], w["texts"]["u"]
+        try:
+            cre = re.compile(_rule_source(sess.spec.pattern, rule), sess.spec.flags)
+        except Exception as e:  # noqa: BLE001
+            return {"consistent": False, "why": f"cannot isolate rule {rule}: {e!r}"}
+        ma = cre.match(a["prev"] + a["text"], len(a["prev"]))
+        mb = cre.match(b["prev"] + b["text"], len(b["prev"]))
+        ea, eb = (ma.end() if ma else -1), (mb.end() if mb else -1)
+        return {"consistent": True, "reproduced": ea != eb, "lexeme": a["text"], "text": a["text"], "prev": a["prev"], "expected": None,
+                "real": [rule, ea, eb], "what": f"rule {rule} alone: extent {ea} on {a['text']!r} but {eb} on its case variant {b['text']!r}"}
+
+    return Obligation(name, family, N, build, replay, [], informational=True, timeout=timeout, max_rounds=1)
